@@ -452,15 +452,41 @@ func oracleC08(r *Result) ([]Violation, bool) {
 	lastCause := map[string]string{}
 	lastLeader := map[string]bool{}
 	lastPromTok := map[string]string{}
+	// one history gets a signature of its own (known finding, DESIGN §9): a term that
+	// superseded an earlier term of the same instance has its OnPromote queued behind the
+	// earlier term's OnDemote (the library runs that one first, in the same goroutine); when
+	// that OnDemote is slow and the new term ends meanwhile, the new term's OnDemote is
+	// invoked by whoever noticed the loss and overtakes the queued OnPromote
+	terms := map[string]int{}        // rises of the leadership flag
+	proms := map[string]int{}        // OnPromote invocations
+	inDem := map[string]int{}        // OnDemote invocations that have not returned yet (slow callbacks only)
+	pendingProm := map[string]bool{} // an overtaken OnPromote is still to come
+	var pendingSince time.Duration
 	for _, e := range r.Trace {
 		switch e.K {
 		case "gauge":
 			if lastLeader[e.I] && !e.B {
 				lastCause[e.I] = evKind(e.S2)
 			}
+			if !lastLeader[e.I] && e.B {
+				terms[e.I]++
+			}
 			lastLeader[e.I] = e.B
+		case "demote.done":
+			if inDem[e.I] > 0 {
+				inDem[e.I]--
+			}
 		case "promote":
 			nontrivial = true
+			proms[e.I]++
+			if pendingProm[e.I] {
+				// the overtaken promotion, delivered late: the term it belongs to is over
+				pendingProm[e.I] = false
+				if !acqTok[e.I][e.S] {
+					s.add(e.T, "promote-with-foreign-token", "%s: OnPromote got token %s which %s never wrote", e.I, e.S, e.I)
+				}
+				continue
+			}
 			if last[e.I] == "P" {
 				s.add(e.T, "double-promote", "%s: OnPromote invoked twice without a demotion in between (at %v)", e.I, e.T)
 			}
@@ -470,6 +496,17 @@ func oracleC08(r *Result) ([]Violation, bool) {
 			last[e.I] = "P"
 			lastPromTok[e.I] = e.S
 		case "demote":
+			overtakes := last[e.I] == "D" && inDem[e.I] > 0 && terms[e.I] > proms[e.I] && !pendingProm[e.I]
+			if r.Scn.inst(e.I) != nil && r.Scn.inst(e.I).DemoteDur > 0 {
+				inDem[e.I]++
+			}
+			if overtakes {
+				s.add(e.T, "demote-overtakes-pending-promote/earlier-ondemote-still-running", "%s: OnDemote for the term that began at the latest rise of the flag was invoked at %v while that term's OnPromote is still queued behind the previous term's OnDemote, which has not returned yet (%d terms begun, %d promotions delivered)", e.I, e.T, terms[e.I], proms[e.I])
+				pendingProm[e.I] = true
+				pendingSince = e.T
+				last[e.I] = "D"
+				continue
+			}
 			switch last[e.I] {
 			case "":
 				s.add(e.T, "demote-without-promote", "%s: OnDemote invoked at %v before any OnPromote", e.I, e.T)
@@ -479,6 +516,9 @@ func oracleC08(r *Result) ([]Violation, bool) {
 			last[e.I] = "D"
 		case "q":
 			for _, sn := range e.Snap {
+				if pendingProm[sn.I] {
+					continue // between the overtaking OnDemote and the late OnPromote: reported above
+				}
 				if sn.InStop || sn.StopFailed || sn.Cut || sn.Fine || sn.Blocked { // StopFailed: an incomplete shutdown (the statement lists the successful StopWithContext only); Blocked: a transition is in progress under the election mutex (slow application callback)
 					continue
 				}
@@ -487,6 +527,10 @@ func oracleC08(r *Result) ([]Violation, bool) {
 					s.add(e.T, "term-without-promotion", "%s leads with token %s at %v, but its latest OnPromote carried %s: a term began without its promotion callback", sn.I, sn.Token, e.T, lastPromTok[sn.I])
 				}
 				switch {
+				case sn.IsLeader && bal == 0 && inDem[sn.I] > 0 && terms[sn.I] > proms[sn.I]:
+					// same known finding: the new term's OnPromote waits for the previous term's
+					// slow OnDemote to return
+					s.add(e.T, "leader-while-promotion-queued/earlier-ondemote-still-running", "%s reports leadership at %v with %d promotions and %d demotions delivered: the OnPromote of its new term is queued behind the previous term's OnDemote, which has not returned yet", sn.I, e.T, sn.NProm, sn.NDem)
 				case sn.IsLeader && bal != 1:
 					s.add(e.T, "leader-without-promote", "%s reports leadership at %v with %d promotions and %d demotions delivered", sn.I, e.T, sn.NProm, sn.NDem)
 				case !sn.IsLeader && bal == 1:
@@ -499,6 +543,11 @@ func oracleC08(r *Result) ([]Violation, bool) {
 					s.add(e.T, "callback-imbalance", "%s: not leader at %v with %d promotions, %d demotions", sn.I, e.T, sn.NProm, sn.NDem)
 				}
 			}
+		}
+	}
+	for inst, p := range pendingProm {
+		if sp := r.Scn.inst(inst); p && sp != nil && r.EndT > pendingSince+sp.DemoteDur+50*ms {
+			s.add(r.EndT, "promotion-never-delivered", "%s: the OnPromote of a term that was overtaken by its own OnDemote at %v has not been invoked by the end of the run (%v)", inst, pendingSince, r.EndT)
 		}
 	}
 	return s.vs, nontrivial
@@ -796,14 +845,19 @@ func oracleC18(r *Result) ([]Violation, bool) {
 				// names for longer than three periodic-check intervals
 				{
 					rec := recOf(r, &e, sn.I)
+					// (an operation of the instance that is in flight at this very snapshot - its
+					// next poll, say - postpones the verdict to the next snapshot, it does not
+					// restart the clock: a follower that lives on its periodic check has a read
+					// in flight every 500 ms)
 					mis := sn.Started && !sn.StopDone && !sn.InStop && !sn.StopFailed && !sn.CtxCancelled && !sn.IsLeader && !sn.Cut && !sn.Fine &&
-						sn.PendCur == 0 && rec != nil && rec.ID != "" && rec.ID != sn.LeaderID
+						rec != nil && rec.ID != "" && rec.ID != sn.LeaderID
 					st := staleSince[sn.I]
 					switch {
 					case !mis:
 						delete(staleSince, sn.I)
 					case st == nil || st.id != rec.ID:
 						staleSince[sn.I] = &staleT{e.T, rec.ID}
+					case sn.PendCur > 0:
 					case e.T-st.t > 1500*ms+4*r.Scn.LatencyBound:
 						s.add(e.T, "follower-leaderid-stale/not-converging", "%s: follower's LeaderID()=%q although the live record has named %q since %v at the latest (now %v) and nothing of the instance is in flight", sn.I, sn.LeaderID, rec.ID, st.t, e.T)
 					}
